@@ -198,6 +198,13 @@ def rand_closed(rng, flower=False):
         order = rng.choice([2, 3, 4])
         inner = [(float(rng.randint(-300, 300)), float(rng.randint(-300, 300))) for _ in range(order - 2)]
         segs.append([nodes[i]] + inner + [nodes[(i + 1) % n]])
+        if rng.random() < 0.12:
+            # a lobe: a cubic that leaves the node and comes back to it (start == end) enclosing a large area
+            q = nodes[(i + 1) % n]
+            a = rng.uniform(0, 2 * math.pi)
+            b = a + rng.choice([-1, 1]) * rng.uniform(1.0, 2.0)
+            d1, d2 = rng.uniform(800, 2000), rng.uniform(800, 2000)
+            segs.append([q, (q[0] + d1 * math.cos(a), q[1] + d1 * math.sin(a)), (q[0] + d2 * math.cos(b), q[1] + d2 * math.sin(b)), q])
     return dict(base, kind="chain", segs=segs)
 
 
